@@ -31,11 +31,16 @@ enum { CA_SLOT = 0, CA_OBJ, CA_FUNC, CA_TERM, CA_NSEQ, CA_SEQ0, CA_SEQ1, CA_LO, 
 struct Op {
   int kind = O_CALL;
   std::vector<int> a;
+  // where the operation is executed: 0 plain code, 1 inside a catch handler (std::current_exception() set),
+  // 2 in a destructor run by stack unwinding (std::uncaught_exceptions() > 0). No property lets the outcome depend on it.
+  int ctx = 0;
   int at(size_t i) const { return i < a.size() ? a[i] : 0; }
 };
 
 inline std::string op_text(const Op& o) {
   std::ostringstream s;
+  if (o.ctx == 1) s << "incatch ";
+  if (o.ctx == 2) s << "unwinding ";
   s << op_name(o.kind);
   for (int v : o.a) s << ' ' << v;
   return s.str();
@@ -44,6 +49,8 @@ inline bool op_parse(const std::string& line, Op& o) {
   std::istringstream s(line);
   std::string k;
   if (!(s >> k)) return false;
+  o.ctx = 0;
+  if (k == "incatch" || k == "unwinding") { o.ctx = k == "incatch" ? 1 : 2; if (!(s >> k)) return false; }
   o.kind = -1;
   for (int i = 0; i < NOPKIND; ++i) if (k == op_name(i)) o.kind = i;
   if (o.kind < 0) return false;
